@@ -27,6 +27,8 @@ LEAN = dict(
         "values are abstract in the theorems (a revert selects, it never computes), so extreme / non-finite proposals are covered; "
         "on the real code they are exercised by the real-sampler runs with inflated proposal scales",
         "the samplers' use of revert()/revert(~accepted) is observed on the real classes, not modelled here (sampler arithmetic is C03)",
+        "bitwise comparison with a from-scratch evaluation assumes the same memory layout (state_common.LayoutEnvelope: 16 float32 ulp, "
+        "counted, only after an independent value was held non-contiguous)",
     ],
     assumptions=["partial reverts are generated only when the documented precondition holds; the real individual sampler only reads "
                  "per-individual terms between proposal and decision (observed)"],
@@ -46,12 +48,15 @@ def shadow_part(chk, env, shadows, n_hist):
         except Exception as e:  # noqa  — every call into leaspy is wrapped (Runner.call): this is a harness bug
             raise core.Infra(f"harness error while driving a history: {type(e).__name__}: {e}")
         line = rn.request_line()
-        cj = {"kind": "shadow", "family": tag, "line": line}
+        cj = {"kind": "shadow", "family": tag, "line": line, "picks": rn.picks}
         for f in rn.fails[:3]:
             chk.impl_failure(cj, f)
         lines.append(line)
         impl.append(";".join(rn.outs))
         cases.append(cj)
+        for k, v in rn.tags.items():
+            if k.startswith(("mask-layout", "put-form", "clone", "to-device", "mode-context")):
+                chk.tag("ops", k, v)
         chk.case(line, nontrivial=(decisions.get("reject", 0) + decisions.get("partial", 0)) >= 1,
                  sample=(cj if len(rn.ops) < 45 else None), tags={"family": tag})
         for k, v in decisions.items():
@@ -69,9 +74,12 @@ def sampler_history_checked(rn: sc.Runner, steps):
     rng, sh = rn.rng, rn.sh
     settable = [n for n in sh.names if sh.by_name[n].kind == "s"]
     counts = {}
+
+    def count(k):
+        counts[k] = counts.get(k, 0) + 1
     if not settable:
         return counts
-    rn.op_mode(0, rng.choice([1, 2]))
+    rn.op_mode(0, "on")
     for n in settable:
         rn.op_set(0, n, rn.random_value(n))
     if rng.random() < 0.7:
@@ -81,47 +89,74 @@ def sampler_history_checked(rn: sc.Runner, steps):
         for k in rng.sample(sh.names, min(len(sh.names), rng.randrange(0, 4))):
             rn.op_get(0, k)
         before = rn.indep_of(0)
-        if before[n] is not None and rng.random() < 0.5:
-            # proposal made the way the samplers make it: out-of-place accumulation of a change (sometimes a zero change)
-            change = rn.random_value(n)
-            if rng.random() < 0.25:
-                change = [[0] * len(r) for r in change]
-            rn.op_put_acc(0, n, change)
-            prop = [[a + b for a, b in zip(ra, rb)] for ra, rb in zip(before[n], change)]
-            counts["by-accumulate"] = counts.get("by-accumulate", 0) + 1
+        # the proposal, made in every way the public interface offers: plain assignment; out-of-place accumulation of a change
+        # on the whole variable (individual sampler), at one coordinate or one row (population samplers), sometimes a zero
+        # change; un-setting the variable; rarely with auto-fork switched off for the block (then it can not be rejected)
+        forked = rng.random() >= 0.08
+
+        def make(n=n):
+            q = rng.random()
+            if before[n] is not None and q < 0.3:
+                change = rn.random_value(n)
+                if rng.random() < 0.25:
+                    change = [[0] * len(r) for r in change]
+                rn.op_put_acc(0, n, change)
+                count("by-accumulate")
+            elif before[n] is not None and q < 0.55:
+                rn.op_put_idx(0, n, True, shape=rng.choice(["cell", "row", "cells"]))
+                count("by-indexed-accumulate")
+            elif q < 0.6:
+                rn.op_set(0, n, None)
+                count("proposal-none")
+            else:
+                rn.op_set(0, n, rn.random_value(n))
+        if forked:
+            make()
         else:
-            prop = rn.random_value(n)
-            rn.op_set(0, n, prop)
+            rn.op_with_mode(0, 0, make)
+            count("proposal-unforked")
+        prop = rn.indep_of(0)[n]
         decision = rng.choice(["accept", "reject", "partial", "partial"]) if sh.level[n] == "i" else rng.choice(["accept", "reject"])
         pool = sorted(sh.rowlocal(n)) if decision == "partial" else sh.names
         for k in rng.sample(pool, min(len(pool), rng.randrange(0, 5))):
             rn.op_get(0, k)
+        if rng.random() < 0.15:
+            rn.op_to_device(0)          # moving the state (here: to the device it is on) keeps the pending proposal revertible
+        if rng.random() < 0.3:
+            # operations that are REFUSED while the proposal is pending (assignment of a derived / non-settable variable, of an
+            # unknown name): a refusal leaves everything as it was, the proposal included — it can still be rejected afterwards
+            refusable = [k for k in sh.names if sh.by_name[k].kind != "s"]
+            for _ in range(rng.randrange(1, 3)):
+                if refusable:
+                    k = rng.choice(refusable)
+                    rn.op_set(0, k, rn.random_value(k))
+                    count("refused-op-while-pending")
         mask = None
-        if decision == "partial" and rn.partial_revert_allowed(0) is None:
+        if decision == "partial" and forked and rn.partial_revert_allowed(0) is None:
             decision = "reject"
         if decision == "partial":
-            mask = [rng.random() < 0.5 for _ in range(sh.nind)]
-        # the decision may be taken on a copy made while the proposal is pending (clone keeping the fork): the copy must
-        # reject / accept exactly like the original, which is decided afterwards as well
+            mask = sc.random_mask(rng, sh.nind)
+        # the decision may be taken on a copy made while the proposal is pending (clone keeping the fork, deep copy): the copy
+        # must reject / accept exactly like the original, which is decided afterwards as well
         sids = [0]
         if rng.random() < 0.3:
             rn.op_clone(0, 1, rng.random() < 0.3, True)
             if 1 in rn.states:
                 sids = [1, 0]
-                counts["decision-on-clone"] = counts.get("decision-on-clone", 0) + 1
-        counts[decision] = counts.get(decision, 0) + 1
+                count("decision-on-clone")
+        count(decision if forked else decision + "-unforked")
         for sid in sids:
-            where = "" if sid == 0 else " (decided on a clone made with keep_last_fork=True)"
+            where = "" if sid == 0 else " (decided on a copy made while the proposal was pending)"
             if decision == "reject":
                 rn.op_revert(sid)
             elif decision == "partial":
                 rn.op_revert(sid, mask)
             after = rn.indep_of(sid)
             want = dict(before)
-            if decision == "accept":
-                want[n] = prop
+            if decision == "accept" or not forked:
+                want[n] = prop          # (without a fork the revert is refused - checked by op_revert - and nothing changes)
             elif decision == "partial":
-                want[n] = None if before[n] is None else [before[n][r] if mask[r] else prop[r] for r in range(sh.nind)]
+                want[n] = None if (before[n] is None or prop is None) else [before[n][r] if mask[r] else prop[r] for r in range(sh.nind)]
             if after != want:
                 bad = [k for k in want if after.get(k) != want[k]]
                 rn.fails.append(f"after a {decision} decision on '{n}'{where} the independent values {bad} are not "
@@ -139,41 +174,154 @@ def sampler_history_checked(rn: sc.Runner, steps):
 
 
 # ------------------------------------------------------------------------------------------
-def real_sampler_part(chk, env, n_steps):
-    torch = env["torch"]
-    from leaspy.algo import AlgorithmSettings, algorithm_factory
+POP_KINDS = ["Gibbs", "FastGibbs", "Metropolis-Hastings"]
+
+
+def real_plan(chk):
+    """(model kind, keywords, cohort, population sampler kind) of the real-sampler cases of this run"""
     rng = chk.rng
-    for name, kw in sc.REAL_KINDS:
-        for pop_kind in (["Gibbs", "FastGibbs", "Metropolis-Hastings"] if chk.tier == "thorough" else [rng.choice(["Gibbs", "FastGibbs", "Metropolis-Hastings"])]):
-            case = {"kind": "real-sampler", "model": name, "kw": kw, "sampler_pop": pop_kind, "seed": chk.seed, "steps": n_steps}
-            try:
-                model, st, ds = sc.real_state(env, name, kw)
-                case["fractional_weights"] = bool(rng.random() < 0.5 and sc.fractional_weights(env, rng, st))
-                with core.quiet():
-                    algo = algorithm_factory(AlgorithmSettings("mcmc_saem", n_iter=10, seed=chk.seed, progress_bar=False, sampler_pop=pop_kind))
-                    st.auto_fork_type = env["StateForkType"].REF
-                    algo._initialize_samplers(st, ds)
-            except Exception as e:  # noqa
-                chk.note(f"real samplers unavailable for {name} {kw} {pop_kind}: {type(e).__name__}: {e}")
-                continue
-            fails, stats = run_real_samplers(env, rng, st, ds, algo, n_steps)
-            for f in fails[:3]:
-                chk.impl_failure(case, f)
-            chk.case(("real-sampler", name, str(kw), pop_kind, chk.seed), nontrivial=stats.get("rejected", 0) > 0,
-                     tags={"family": "real-" + name, "sampler_pop": pop_kind})
-            for k, v in stats.items():
-                chk.tag("real_decisions", k, v)
+    if chk.tier == "thorough":
+        plan = [(n, kw, co, pk) for n, kw in sc.REAL_KINDS for co in ("full",) for pk in POP_KINDS]
+        plan += [(n, kw, co, rng.choice(POP_KINDS)) for n, kw in sc.REAL_KINDS + sc.REAL_KINDS_MORE for co in ("one", "two-reversed", "missing")]
+        plan += [(n, kw, "full", pk) for n, kw in sc.REAL_KINDS_MORE for pk in POP_KINDS]
+    else:
+        plan = [(n, kw, rng.choice(sc.COHORTS), rng.choice(POP_KINDS)) for n, kw in sc.REAL_KINDS]
+        # a model with clusters in every run (the individual sampler then reads the per-cluster regularities between proposal
+        # and decision), plus a sample of the other kinds
+        plan += [(n, kw, rng.choice(sc.COHORTS), rng.choice(POP_KINDS)) for n, kw in [rng.choice(sc.REAL_KINDS_MORE[:2])] + rng.sample(sc.REAL_KINDS_MORE[2:], 2)]
+    return plan
 
 
-def run_real_samplers(env, rng, st, ds, algo, n_steps):
+def sampler_settings(rng, pop_kind, seed, entry):
+    """Settings of the algorithm that builds the samplers: defaults, or the documented tuning keys at and near their bounds
+    (a window of one step makes the adaptation of the proposal scale fire between the observed steps)."""
+    from leaspy.algo import AlgorithmSettings
+    kws = dict(seed=seed, progress_bar=False)
+    tuned = rng.random() < 0.5
+    if tuned:
+        def tune():
+            lo = rng.choice([0.01, 0.2, 0.5])
+            return dict(acceptation_history_length=rng.choice([1, 2, 3, 25]),
+                        mean_acceptation_rate_target_bounds=[lo, rng.choice([lo + 0.05, 0.99])],
+                        adaptive_std_factor=rng.choice([0.01, 0.1, 0.9]))
+        kws["sampler_ind_params"] = tune()
+        if entry == "fit":
+            kws["sampler_pop_params"] = dict(tune(), random_order_dimension=rng.random() < 0.5)
+    if entry == "fit":
+        return AlgorithmSettings("mcmc_saem", n_iter=10, sampler_pop=pop_kind, **kws), tuned
+    return AlgorithmSettings(entry, n_iter=10, **kws), tuned
+
+
+def real_sampler_part(chk, env, n_steps, only=None):
+    import random
+    from leaspy.algo import algorithm_factory
+    for i, (name, kw, cohort, pop_kind, *rest) in enumerate(real_plan(chk) if only is None else [only]):
+        key = f"{PROP}-real:{chk.seed}:{chk.tier}:{i}:{name}:{cohort}:{pop_kind}" if only is None else rest[0]
+        rng = random.Random(key)              # own stream per case: a replay re-creates exactly this run
+        case = {"kind": "real-sampler", "model": name, "kw": kw, "cohort": cohort, "sampler_pop": pop_kind, "seed": chk.seed,
+                "steps": n_steps, "rng_key": key}
+        try:
+            model, st, ds = sc.real_state(env, name, kw, cohort, rng)
+            case["fractional_weights"] = bool(rng.random() < 0.5 and sc.fractional_weights(env, rng, st))
+            # the samplers are built by the fit algorithm or (individual ones only) by a sampling-based personalisation
+            entry = rng.choice(["fit", "fit", "fit", "mean_posterior", "mode_posterior"])
+            case["built_by"] = entry
+            with core.quiet():
+                settings, case["tuned"] = sampler_settings(rng, pop_kind, chk.seed, entry)
+                algo = algorithm_factory(settings)
+                case["fork"] = rng.choice(["REF", "REF", "COPY"])
+                st.auto_fork_type = getattr(env["StateForkType"], case["fork"])
+                algo._initialize_samplers(st, ds)
+        except Exception as e:  # noqa
+            chk.note(f"real samplers unavailable for {name} {kw} {cohort} {pop_kind}: {type(e).__name__}: {e}")
+            continue
+        fails, stats = run_real_samplers(env, rng, model, st, ds, algo, n_steps, (name, kw))
+        for f in fails[:3]:
+            chk.impl_failure(case, f)
+        chk.case(("real-sampler", name, str(kw), cohort, pop_kind, chk.seed), nontrivial=stats.get("rejected", 0) > 0,
+                 tags={"family": "real-" + name, "sampler_pop": pop_kind, "cohort": cohort, "built_by": entry, "fork": case["fork"]})
+        for k, v in stats.items():
+            chk.tag("real_decisions", k, v)
+
+
+def individual_axis(env, name, kw):
+    """names of the variables that carry the individual axis, read off the whole mock cohort (see state_common.RealOracle)"""
+    _, full_st, full_ds = sc.real_state(env, name, kw)
+    with core.quiet():
+        full_st.precompute_all()
+    n = full_ds.n_individuals
+    return {k for k, v in full_st._values.items() if v is not None and v.ndim >= 1 and v.shape[0] == n and n not in tuple(v.shape[1:])}
+
+
+def run_real_samplers(env, rng, model, st0, ds, algo, n_steps, kind):
     torch = env["torch"]
     State = env["State"]
     fails, stats = [], {}
-    names = list(st.dag.sorted_variables_names)
+
+    def count(k, n=1):
+        stats[k] = stats.get(k, 0) + n
+    names = list(st0.dag.sorted_variables_names)
     n_ind = ds.n_individuals
+    # bitwise comparison with a from-scratch evaluation, except for the one legitimate cause documented in
+    # state_common.LayoutEnvelope (an independent value was held in a non-contiguous memory layout: counted)
+    lay = sc.LayoutEnvelope()
+    lay.env, lay.layout_seen, lay.envelope_reads = env, False, 0
+
+    def same_as_from_scratch(got, want):
+        if sc.values_equal(torch, got, want):
+            return True
+        if lay.layout_seen and lay.within_layout_envelope(got, want):
+            count("reads-within-layout-envelope")
+            return True
+        return False
     orig_setitem = State.__setitem__
     orig_rand = torch.rand
+    ind_axis = None
+    from leaspy.variables.specs import ModelParameter
+    params = list(st0.dag.sorted_variables_by_type.get(ModelParameter, {}))
+    st = st0
     for step in range(n_steps):
+        # ---- between two sampler steps: the rest of what an iteration / a caller does with the state (the following history)
+        q = rng.random()
+        lay.note_layouts(st)
+        count("fork-pending-between-steps" if st._last_fork is not None else "no-fork-between-steps")
+        try:
+            if q < 0.06:
+                st.to_device(torch.device("cpu"))
+                count("between-to-device")
+            elif q < 0.14 and params:
+                # maximisation-like step: a parameter rewritten with auto-fork off
+                p = rng.choice(params)
+                if st._last_fork is None and rng.random() < 0.7:
+                    # (the snapshot of an accepted proposal is still there when the parameters are updated - as after a
+                    # population sampler whose last block was accepted; made here by an accepted zero change)
+                    v0 = rng.choice(list(algo.samplers))
+                    st.put(v0, torch.zeros_like(st[v0]), accumulate=True)
+                had_fork = st._last_fork is not None
+                with st.auto_fork(None):
+                    st[p] = st[p] * (1.02 if p.endswith("_std") else 1.0) + (0.0 if p.endswith("_std") else 0.01)
+                count("between-parameter-update")
+                if had_fork or rng.random() < 0.3:
+                    # the last accepted proposal (its snapshot may still be there) can no longer be undone: the snapshot predates
+                    # the parameter; a revert is refused and changes nothing
+                    try:
+                        st.revert()
+                        fails.append(f"[step {step}] revert() after a parameter was assigned with auto-fork off did not raise")
+                    except env["LIE"]:
+                        pass
+                    for k in rng.sample(names, min(len(names), 6)):
+                        if not same_as_from_scratch(st[k], sc.from_scratch(env, st, k)):
+                            fails.append(f"[step {step}] read of '{k}' after a parameter update and a refused revert differs bitwise "
+                                         "from a from-scratch evaluation")
+            elif q < 0.20:
+                # the chain goes on on a copy (what a personalisation does); the previous object must not move any more
+                frozen = {k: (None if v is None else (v.clone() if hasattr(v, "clone") else v)) for k, v in st._values.items()}
+                prev, st = st, (st.clone(keep_last_fork=rng.random() < 0.5) if rng.random() < 0.6 else __import__("copy").deepcopy(st))
+                stats.setdefault("_frozen", []).append((prev, frozen))
+                count("between-continue-on-copy")
+        except Exception as e:  # noqa
+            fails.append(f"[step {step}] operation between sampler steps raised {type(e).__name__}: {e}")
+            break
         ind_vars = [v for v, smp in algo.samplers.items() if hasattr(smp, "n_patients")]
         var = rng.choice(ind_vars) if (ind_vars and rng.random() < 0.5) else rng.choice(list(algo.samplers))
         sampler = algo.samplers[var]
@@ -186,8 +334,8 @@ def run_real_samplers(env, rng, st, ds, algo, n_steps):
         if extreme:
             sampler.std = sampler.std * rng.choice([50.0, 1e3, 1e5])
 
-        def rec_set(self, name, value, _orig=orig_setitem):
-            if self is st and name == var:
+        def rec_set(self, name, value, _orig=orig_setitem, _st=st):
+            if self is _st and name == var:
                 assigned.append(None if value is None else value.clone())
             return _orig(self, name, value)
 
@@ -202,12 +350,38 @@ def run_real_samplers(env, rng, st, ds, algo, n_steps):
                 m = torch.tensor([rng.random() < 0.5 for _ in range(int(torch.tensor(tuple(shape)).prod()) if len(tuple(shape)) else 1)])
                 return torch.where(m, torch.tensor(-1.0), torch.tensor(float("inf"))).reshape(tuple(shape))
             forced = fake_rand
+        # extra reads between the proposal and the decision, within what the documented contract allows: any variable before
+        # the all-or-nothing decision of a population sampler, variables carrying the individual axis before a per-individual one
+        extra = []
+        if rng.random() < 0.5:
+            if is_ind:
+                if ind_axis is None:
+                    ind_axis = individual_axis(env, *kind)
+                d = set(st.dag.sorted_children[var])
+                ok = set()
+                for n in st.dag.sorted_variables_names:
+                    if n in d and n in ind_axis and all((p not in d and p != var) or p in ok or p == var for p in st.dag.direct_ancestors[n]):
+                        ok.add(n)
+                extra = rng.sample(sorted(ok), min(len(ok), rng.randrange(1, 4)))
+            elif rng.random() < 0.25:
+                extra = ["*"]            # everything at once (precompute_all), as an output manager would
+            else:
+                extra = rng.sample(names, rng.randrange(1, 4))
         # record decisions (call-through wrappers on the instance)
         for meth in ("_metropolis_step", "_group_metropolis_step"):
             if hasattr(sampler, meth):
                 orig = getattr(sampler, meth)
 
-                def wrapped(alpha, _orig=orig):
+                def wrapped(alpha, _orig=orig, _st=st):
+                    for k in extra:
+                        try:
+                            if k == "*":
+                                _st.precompute_all()
+                            else:
+                                _st[k]
+                            count("reads-between-proposal-and-decision")
+                        except Exception:  # noqa  (an absurd proposal the model refuses to evaluate)
+                            pass
                     r = _orig(alpha)
                     decisions.append(r.clone() if hasattr(r, "clone") else torch.tensor(bool(r)))
                     return r
@@ -222,10 +396,15 @@ def run_real_samplers(env, rng, st, ds, algo, n_steps):
                 sampler.sample(st, temperature_inv=rng.choice([1.0, 0.5, 0.1]))
         except Exception as e:  # noqa
             from leaspy.exceptions import LeaspyModelInputError
-            if extreme and isinstance(e, LeaspyModelInputError):
-                # the model itself refuses to evaluate an absurd proposal (e.g. overflowing metric): not a C02 matter.
+            refused = isinstance(e, LeaspyModelInputError) or (
+                isinstance(e, ValueError) and str(e).startswith("Expected parameter") and "found invalid values" in str(e))
+            if extreme and refused:
+                # the model itself refuses to evaluate an absurd proposal (made with a proposal scale inflated x50 .. x1e5): an
+                # overflowing metric (LeaspyModelInputError), or - binary outcomes - torch's Bernoulli distribution refusing the
+                # nan probabilities of an overflowed prediction (ValueError "Expected parameter probs ... found invalid values";
+                # the Gaussian kinds evaluate the same proposal to nan and reject it).  No decision is taken: not a C02 matter.
                 # Restore the state as a sampler would on rejection and go on.
-                stats["aborted-extreme"] = stats.get("aborted-extreme", 0) + 1
+                count("aborted-extreme" if isinstance(e, LeaspyModelInputError) else "aborted-extreme-torch-parameter-validation")
                 aborted = True
             else:
                 fails.append(f"[{ctx}] sampler raised {type(e).__name__}: {e}")
@@ -236,9 +415,8 @@ def run_real_samplers(env, rng, st, ds, algo, n_steps):
             for meth in ("_metropolis_step", "_group_metropolis_step"):
                 if meth in sampler.__dict__:
                     del sampler.__dict__[meth]
-            sampler.std = old_std if not extreme else sampler.std  # keep adapted std unless inflated
             if extreme:
-                sampler.std = old_std
+                sampler.std = old_std      # (the adapted std is kept unless it was inflated for this step)
         if aborted:
             try:
                 if st._last_fork is not None:
@@ -259,14 +437,14 @@ def run_real_samplers(env, rng, st, ds, algo, n_steps):
                 if is_ind:
                     a = acc.to(torch.bool).reshape((-1,) + (1,) * (prop.ndim - 1))
                     cur = torch.where(a, prop, cur)
-                    stats["accepted"] = stats.get("accepted", 0) + int(acc.sum())
-                    stats["rejected"] = stats.get("rejected", 0) + int((~acc.to(torch.bool)).sum())
+                    count("accepted", int(acc.sum()))
+                    count("rejected", int((~acc.to(torch.bool)).sum()))
                 else:
                     if bool(acc):
                         cur = prop
-                        stats["accepted"] = stats.get("accepted", 0) + 1
+                        count("accepted")
                     else:
-                        stats["rejected"] = stats.get("rejected", 0) + 1
+                        count("rejected")
             if not sc.values_equal(torch, st[var], cur):
                 fails.append(f"[{ctx}] '{var}' is not old-on-rejected / proposed-on-accepted after the sampler step")
         if st._last_fork is not None and ok_shape and len(decisions) and not is_ind and not bool(decisions[-1]):
@@ -279,28 +457,41 @@ def run_real_samplers(env, rng, st, ds, algo, n_steps):
             except Exception as e:  # noqa
                 fails.append(f"[{ctx}] read of '{k}' raised {type(e).__name__}")
                 continue
-            if not sc.values_equal(torch, got, want):
+            if not same_as_from_scratch(got, want):
                 fails.append(f"[{ctx}] read of '{k}' after the step differs bitwise from a from-scratch evaluation")
         if len(fails) > 5:
             break
+    # the objects the chain left behind (it went on on copies of them) hold what they held
+    for prev, frozen in stats.pop("_frozen", []):
+        for k, v in frozen.items():
+            now = prev._values[k]
+            if (v is None) != (now is None) or (v is not None and not sc.values_equal(torch, now, v)):
+                fails.append(f"a state the chain was copied from changed afterwards (variable '{k}')")
+                break
     return fails, stats
 
 
 def run(chk: core.Check):
     env = sc.imports()
-    chk.rule = ("sampler-shaped histories (3-11 proposal/reads/decision steps, decisions accept / full revert / per-individual revert with "
-                "random masks, reads of random allowed variables in between) on random toy DAGs and on shadow graphs of every shipped "
-                "model kind; real sampler steps on real model states with natural and forced decisions and normal / inflated proposal "
-                "scales. Non-trivial = at least one rejection (full or partial); distinct by request line / (model, sampler, seed).")
+    chk.rule = ("sampler-shaped histories (3-11 proposal/reads/decision steps; proposals by assignment, by out-of-place accumulation on "
+                "the whole variable / one coordinate / one row, of None, with auto-fork off; decisions accept / full revert / "
+                "per-individual revert with random and uniform masks in every dtype and layout, possibly taken on a clone / deep copy made "
+                "while the proposal is pending, possibly after a to_device; reads of random allowed variables in between) on random toy "
+                "DAGs and on shadow graphs of every shipped model kind; real sampler steps (samplers built by the fit or a "
+                "personalisation algorithm, default or boundary tuning, REF / COPY snapshots) on real model states of 9-14 model kinds "
+                "incl. clusters, binary outcomes, cohorts of 1 / 2 individuals and missing values, with natural and forced decisions, "
+                "normal / inflated proposal scales, extra reads between proposal and decision, and parameter updates / to_device / "
+                "continuation on a copy between steps. Non-trivial = at least one rejection (full or partial); distinct by request line "
+                "/ (model, cohort, sampler, seed).")
     for c in core.load_corpus(PROP):
         if c.get("kind") == "shadow":
             replay_line(chk, env, c)
     thorough = chk.tier == "thorough"
-    shadow_part(chk, env, [], 800 if thorough else 80)
+    shadow_part(chk, env, [], 800 if thorough else 110)
     ms = model_shadows(chk, env)
     if ms:
-        shadow_part(chk, env, ms, 350 if thorough else 35)
-    real_sampler_part(chk, env, 120 if thorough else 40)
+        shadow_part(chk, env, ms, 350 if thorough else 45)
+    real_sampler_part(chk, env, 100 if thorough else 50)
 
 
 def replay(chk: core.Check, payload):
@@ -311,6 +502,10 @@ def replay(chk: core.Check, payload):
         return
     if case.get("kind") == "shadow":
         replay_line(chk, env, case)
+    elif "rng_key" in case:
+        chk.note("real-sampler cases are replayed by re-running the seeded case (same model kind, cohort, samplers, stream)")
+        real_sampler_part(chk, env, case.get("steps", 14),
+                          only=(case["model"], case["kw"], case.get("cohort", "full"), case["sampler_pop"], case["rng_key"]))
     else:
         import random
         chk.rng = random.Random(f"{PROP}:{case.get('seed', chk.seed)}")
